@@ -35,7 +35,7 @@ WEIGHTS = {
     "parafac": 10, "tucker": 8, "non_negative_parafac": 6, "partial_tucker": 6, "constrained_parafac": 6, "robust_pca": 6,
     "CP_PLSR": 6, "svd_interface": 6, "CP.fit_transform": 4, "randomised_parafac": 4, "parafac2": 4, "non_negative_tucker": 4,
     "CPRegressor": 4, "TuckerRegressor": 4, "tensor_ring_als": 4, "tensor_ring_als_sampled": 3, "non_negative_parafac_hals": 2,
-    "non_negative_tucker_hals": 2, "hals_nnls": 3, "fista": 3, "admm": 3, "cp_to_tensor": 3, "cp_mode_dot": 2, "tucker_mode_dot": 2,
+    "non_negative_tucker_hals": 2, "hals_nnls": 8, "fista": 6, "admm": 6, "cp_to_tensor": 8, "cp_mode_dot": 6, "tucker_mode_dot": 6,
 }  # fmt: skip
 
 
@@ -615,7 +615,7 @@ def replay_file(path):
 
 # ------------------------------------------------------------------ driver interface
 
-QUICK_RUNS = 10000
+QUICK_RUNS = 14000
 CHUNK = 4
 CHUNK_TIMEOUT = 900
 THOROUGH_S = 1200
